@@ -146,6 +146,8 @@ Definition uncached (enabled : bool) (d : dbs) (ti : option tinfo) (q : query) :
 (* ---- mutations ------------------------------------------------------------------------- *)
 Inductive mutation :=
 | CreateOrg | UpdateOrg (id : N) (en : bool) | DeleteOrg (id : N)
+| RealignOrg (old : N)     (* cluster apply of a CreateOrganization whose NAME is held locally by organization [old]
+                              under another id (upgrade seed): the local row is deleted - cascading - and re-inserted *)
 | CreateTeam (o : N) | UpdateTeam (id : N) (en : bool) | DeleteTeam (id : N)
 | CreateRole (t : N) (pat : str) (perms : list N)
 | UpdateRole (id : N) (pat : option str) (perms : list N)      (* perms = [] : unchanged *)
@@ -154,13 +156,13 @@ Inductive mutation :=
 | AddMember (tok t : N) | RemoveMember (tok t : N)
 | CreateToken | DeleteToken (id : N).
 
-Inductive mkind := KCreateOrg | KUpdateOrg | KDeleteOrg | KCreateTeam | KUpdateTeam | KDeleteTeam
+Inductive mkind := KCreateOrg | KUpdateOrg | KDeleteOrg | KRealignOrg | KCreateTeam | KUpdateTeam | KDeleteTeam
                  | KCreateRole | KUpdateRole | KDeleteRole | KCreateMP | KDeleteMP
                  | KAddMember | KRemoveMember | KCreateToken | KDeleteToken.
 
 Definition kind_of (m : mutation) : mkind :=
   match m with
-  | CreateOrg => KCreateOrg | UpdateOrg _ _ => KUpdateOrg | DeleteOrg _ => KDeleteOrg
+  | CreateOrg => KCreateOrg | UpdateOrg _ _ => KUpdateOrg | DeleteOrg _ => KDeleteOrg | RealignOrg _ => KRealignOrg
   | CreateTeam _ => KCreateTeam | UpdateTeam _ _ => KUpdateTeam | DeleteTeam _ => KDeleteTeam
   | CreateRole _ _ _ => KCreateRole | UpdateRole _ _ _ => KUpdateRole | DeleteRole _ => KDeleteRole
   | CreateMP _ _ _ => KCreateMP | DeleteMP _ => KDeleteMP
@@ -200,6 +202,15 @@ Definition apply_mut (m : mutation) (d : dbs) : dbs * bool * N :=
       then let d1 := upd_db d (d_tokens d) (filter (fun o => negb (N.eqb (og_id o) id)) (d_orgs d))
                             (d_teams d) (d_roles d) (d_mperms d) (d_members d) in
            (cascade d1 (filter (fun t => negb (N.eqb (tm_org t) id)) (d_teams d)) (d_roles d) (d_members d), true, 0%N)
+      else fail
+  | RealignOrg old =>
+      if mem old (map og_id (d_orgs d))
+      then let id := n_org d in
+           let d1 := {| d_tokens := d_tokens d;
+                        d_orgs := filter (fun o => negb (N.eqb (og_id o) old)) (d_orgs d) ++ [{| og_id := id; og_enabled := true |}];
+                        d_teams := d_teams d; d_roles := d_roles d; d_mperms := d_mperms d; d_members := d_members d;
+                        n_token := n_token d; n_org := N.succ id; n_team := n_team d; n_role := n_role d; n_mperm := n_mperm d |} in
+           (cascade d1 (filter (fun t => negb (N.eqb (tm_org t) old)) (d_teams d)) (d_roles d) (d_members d), true, id)
       else fail
   | CreateTeam o =>
       if mem o (map og_id (d_orgs d))
@@ -499,7 +510,7 @@ Definition covers (i : inval) (n : need) : bool :=
   | _, _ => false
   end.
 Definition all_kinds : list mkind :=
-  [KCreateOrg; KUpdateOrg; KDeleteOrg; KCreateTeam; KUpdateTeam; KDeleteTeam; KCreateRole; KUpdateRole; KDeleteRole;
+  [KCreateOrg; KUpdateOrg; KDeleteOrg; KRealignOrg; KCreateTeam; KUpdateTeam; KDeleteTeam; KCreateRole; KUpdateRole; KDeleteRole;
    KCreateMP; KDeleteMP; KAddMember; KRemoveMember; KCreateToken; KDeleteToken].
 Definition missing (tbl : mkind -> inval) : list mkind := filter (fun k => negb (covers (tbl k) (need_of k))) all_kinds.
 
